@@ -7,7 +7,8 @@ WORDS = ['a', 'b', 'c', 'gpl', '2.0', 'mit', 'gnu', 'later', 'x', 'v2', '+', 'lg
 OPWORDS = ['and', 'or', 'with']
 # the last two: letters that str.lower() leaves alone and casefold() / NFKC do not (fi ligature, final sigma)
 ODDWORDS = ['\u0130x', '\u01c5', 'Stra\xdfe', '\xc9t\xe9', '\u03a9m', '\ufb01le', '\u03bf\u03c2']
-BADWORDS = ['a$', 'b/c', 'x&y', '*']
+# characters that are not allowed in a key; the last four have no Unicode name (controls, private use, noncharacter)
+BADWORDS = ['a$', 'b/c', 'x&y', '*', 'mit\x07', 'gpl\x7f2.0', '\x9bbar', '\ue000x', 'y\ufffe']
 BLANKS = impl.WS
 
 
